@@ -425,3 +425,92 @@ func startStorm(addr, listener string, goroutines int) (*stormClient, error) {
 }
 
 func (st *stormClient) halt() { close(st.stop) }
+
+// flapper: a raw replica that lives many short lives. Each life: new
+// connection, StreamWAL, session id from the header, a reader, and several
+// goroutines that call Acknowledge with that session id back to back; after
+// 1-20 ms the CONNECTION is closed abruptly while acknowledgements are in
+// flight (the primary unregisters the session while late acks still arrive).
+type flapper struct {
+	stop  chan struct{}
+	done  chan struct{}
+	lives atomic.Int64
+	acks  atomic.Int64
+	errs  atomic.Int64
+}
+
+func startFlapper(addr, listener string, ackers int, lifeUs []int) *flapper {
+	f := &flapper{stop: make(chan struct{}), done: make(chan struct{})}
+	go func() {
+		defer close(f.done)
+		for n := 0; ; n++ {
+			select {
+			case <-f.stop:
+				return
+			default:
+			}
+			ctx, cancel := context.WithTimeout(context.Background(), 5*time.Second)
+			conn, err := grpc.DialContext(ctx, addr, grpc.WithTransportCredentials(insecure.NewCredentials()), grpc.WithBlock(),
+				grpc.WithDefaultCallOptions(grpc.MaxCallRecvMsgSize(64<<20)))
+			cancel()
+			if err != nil {
+				f.errs.Add(1)
+				time.Sleep(5 * time.Millisecond)
+				continue
+			}
+			cli := rpb.NewWALReplicationServiceClient(conn)
+			st, err := cli.StreamWAL(context.Background(), &rpb.WALStreamRequest{StartSequence: 1, ProtocolVersion: 1, ListenerAddress: listener})
+			var sid string
+			if err == nil {
+				if md, herr := st.Header(); herr == nil {
+					if ids := md.Get("session-id"); len(ids) > 0 {
+						sid = ids[0]
+					}
+				}
+			}
+			if sid == "" {
+				f.errs.Add(1)
+				_ = conn.Close()
+				continue
+			}
+			var last atomic.Uint64
+			go func() {
+				for {
+					m, err := st.Recv()
+					if err != nil {
+						return
+					}
+					if k := len(m.Entries); k > 0 {
+						last.Store(m.Entries[k-1].SequenceNumber)
+					}
+				}
+			}()
+			actx := metadata.NewOutgoingContext(context.Background(), metadata.Pairs("session-id", sid))
+			for g := 0; g < ackers; g++ {
+				go func() {
+					for {
+						cctx, ccancel := context.WithTimeout(actx, 2*time.Second)
+						_, err := cli.Acknowledge(cctx, &rpb.Ack{AcknowledgedUpTo: last.Load() + 1})
+						ccancel()
+						if err != nil {
+							return // connection closed
+						}
+						f.acks.Add(1)
+					}
+				}()
+			}
+			time.Sleep(time.Duration(lifeUs[n%len(lifeUs)]) * time.Microsecond)
+			_ = conn.Close() // abrupt: acknowledgements are in flight
+			f.lives.Add(1)
+		}
+	}()
+	return f
+}
+
+func (f *flapper) halt() {
+	close(f.stop)
+	select {
+	case <-f.done:
+	case <-time.After(10 * time.Second):
+	}
+}
